@@ -630,7 +630,7 @@ def mn_params(tier, seed, pool):
     for n in range(1, (3 if tier == "quick" else 4) + 1):
         ph = [f"#{i}" for i in range(n)]
         for g, edges in enumerate(all_graphs(ph)):
-            for r in range(6 if n < 4 else 2):
+            for r in range(12 if n < 4 else 3):
                 k += 1
                 cv = CARD_VECTORS[n][(g + r + seed) % len(CARD_VECTORS[n])]
                 start = (k * 3 + seed) % len(pool)
@@ -1071,7 +1071,7 @@ def groups(tier):
         Group("uai_single_value", gen_uai_single_value, check_uai_single_value, lambda c: True, seed_fanout=2, engine="E3",
               bound="UAI BAYES, <= 20 models <= 3 nodes containing a table with exactly one entry (root of cardinality 1)"),
         Group("uai_mn", gen_uai_mn, check_uai_mn, nontrivial, seed_fanout=8, engine="E3",
-              bound="UAI MARKOV string/file under 8 hash seeds: all graphs <= 3 (thorough 4) nodes without isolated nodes x 6 (2) variants: cards 1..3(4), one factor per edge or "
+              bound="UAI MARKOV string/file under 8 hash seeds: all graphs <= 3 (thorough 4) nodes without isolated nodes x 12 (4 nodes: 3) variants: cards 1..3(4), one factor per edge or "
                     "per maximal clique + unary factors (not on cardinality-1 variables), rotated/reversed scope orders, values {0,1,2.5,0.1,1/3} + random; every edge is covered "
                     "by a factor (UAI cannot express an edge without one); factors compared as a multiset on every assignment"),
         Group("uai_mn_isolated", gen_uai_mn_isolated, check_uai_mn_isolated, lambda c: True, seed_fanout=2, engine="E3",
@@ -1080,8 +1080,8 @@ def groups(tier):
               bound="per format one CPD with 1008 (7x8x9x2) and one with 1080 (9x8x15) entries (thorough: + 2048, 1078, 1080); UAI: one parent (9) x 120/135 states"),
         Group("purity", gen_purity, check_purity, lambda c: True, engine="E3",
               bound="3 models x 4 writers (BIF 1) + 1 Markov network: deep snapshot incl. ORDER of model.cpds after constructor, str() and write_*; str() twice"),
-        Group("bif", _gen_format("bif", 1, bif_pool, ["plain", "tiny", "plain"]), check_roundtrip, nontrivial, engine="E3",
-              bound=f"BIF string (all), save/load (1/3) and write_bif/path (1/10), n_jobs=1: {sizes} x 1 variant (BIFReader costs ~2 s per call); names from the pool without "
+        Group("bif", _gen_format("bif", 2, bif_pool, ["plain", "tiny", "plain"]), check_roundtrip, nontrivial, engine="E3",
+              bound=f"BIF string (all), save/load (1/3) and write_bif/path (1/10), n_jobs=1: {sizes} x 2 variants (BIFReader costs ~2 s per call); names from the pool without "
                     f"the substrings 'variable'/'probability' (those: group bif_names); plain and tiny entries; exact (1e-12); {common}"),
         Group("bif_names", gen_bif_names, check_bif_names, nontrivial, engine="E3",
               bound="BIF: every name of the adversarial list + 8 more as the middle variable of a 3-chain and as child of a collider; keyword-like state names; "
